@@ -507,6 +507,8 @@ def vi_atom(r, nlines):
     t = r.below(64)
     if t < 16:
         m = motion(r)
+        if m[:1] == b'0':                   # digits in front of 0 would make it part of a count (and of the next atom's count)
+            return m
         return cap(count(r), m) + m
     if t < 24:
         op = r.choice([b'd', b'c', b'y', b'<', b'>', b'g~', b'gu', b'gU', b'd', b'y'])
